@@ -22,7 +22,8 @@ RULE = (
     "file names from letters/digits/space/quotes/parentheses/unicode/emoji incl. inner double quotes, descriptor text with "
     "comments, blank lines, CRLF/LF, ddb lines, access modes RW/RDONLY/NOACCESS and optional trailing start sector; (b) explicit "
     "handle lists VMDK([fh, ...]) and path lists VMDK([Path | str, ...]) used for two successive opens; (c) Parallels .hdd directories with 1..6 storages (Plain or Compressed) in shuffled "
-    "document order. Requests are weighted to +-1 sector around every extent boundary and the disk tail. Oracle: concatenation "
+    "document order, optionally with one snapshot on top whose images are listed before or after their base; explicit handle lists whose handles "
+    "are shared by two readers with alternating requests or listed twice; extent file names in decomposed Unicode form. Requests are weighted to +-1 sector around every extent boundary and the disk tail. Oracle: concatenation "
     "model; size == sum, descriptor.sectors == sum, number of opened disks == number of data-bearing extents declared, "
     "per-extent sector offsets. Non-trivial = >= 2 extents of >= 2 kinds and a request straddling an extent boundary."
 )
@@ -33,6 +34,7 @@ ASSUMPTIONS = [
 
 # incl. the characters str.splitlines() treats as line boundaries although a descriptor line only ends at "\n"
 NAME_ALPHABET = "abcXYZ019 -_.()'`:#=;,+&ëä中\U0001F98A\"\u2028\u2029\x85\x0b\x0c\x1c\x1e"
+BASE_GUID = "1a2b3c4d-0000-4000-8000-00000000000a"
 TYPES = {"flat": ["FLAT", "VMFS"], "kdmv": ["SPARSE"], "cowd": ["VMFSSPARSE"], "sesparse": ["SESPARSE"]}
 
 
@@ -45,6 +47,10 @@ def file_name(draw, idx):
     if draw(st.integers(0, 2)) == 0:
         return f"disk-s{idx:03d}.vmdk"
     body = draw(st.text(alphabet=NAME_ALPHABET, min_size=1, max_size=24))
+    if draw(st.integers(0, 3)) == 0:
+        # valid Unicode that is not in composed normal form (names written by macOS hosts, compatibility code points): the file
+        # is stored under exactly this name
+        body += draw(st.sampled_from(["e\u0301", "A\u030a", "\u212b", "\u1112\u1161\u11ab", "o\u0308\u0323"]))
     body = body.strip(' "') or "x"
     body = body.replace("/", "_")
     return f"{idx}{body}.vmdk"
@@ -87,7 +93,16 @@ def vmdk_list(draw, tier):
         e.pop("descriptor", None)
         exts.append({"spec": e})
     # the list holds open handles, or paths (Path / str / both) to files on disk; a list of paths is used for two successive opens
-    return {"mode": "vmdk-list", "extents": exts, "list_by": draw(st.sampled_from(["handles", "handles", "paths", "strs", "mixed"]))}
+    spec = {"mode": "vmdk-list", "extents": exts, "list_by": draw(st.sampled_from(["handles", "handles", "paths", "strs", "mixed"]))}
+    if spec["list_by"] == "handles" and draw(st.integers(0, 2)) == 0:
+        # the same handles serve two readers whose requests alternate, or one handle is listed twice (the extent repeats)
+        spec["share"] = draw(st.sampled_from(["two-readers", "dup-in-list"]))
+        flat = [j for j, e in enumerate(exts) if e["spec"]["kind"] == "flat"]  # (a sparse extent is recognised at the handle's position)
+        if spec["share"] == "dup-in-list" and not flat:
+            spec["share"] = "two-readers"
+        if spec["share"] == "dup-in-list":
+            spec["dup"] = draw(st.sampled_from(flat))
+    return spec
 
 
 @st.composite
@@ -103,7 +118,16 @@ def hdd_storages(draw, tier):
                 hs["size_sectors"] = 1 << 22
             sts.append({"type": "Compressed", "hds": hs, "size_sectors": hs["size_sectors"]})
     order = draw(st.permutations(list(range(n))))
-    return {"mode": "hdd", "storages": sts, "order": list(order)}
+    spec = {"mode": "hdd", "storages": sts, "order": list(order)}
+    if draw(st.integers(0, 2)) == 0:
+        # one snapshot on top: every storage has a second (expanding) image; the <Image> elements of a storage come in either order
+        for j, s_ in enumerate(sts):
+            cs = draw(st.sampled_from([8, 128, 2048])) if s_["type"] == "Plain" else s_["hds"]["cluster_sectors"]
+            ncl = -(-s_["size_sectors"] // cs)
+            s_["delta"] = draw(c06.hds_spec(tier, layer=32 + j, geometry=(cs, ncl, s_["size_sectors"]), version=2))[0]
+            s_["delta_first"] = draw(st.booleans())
+        spec["snapshot"] = True
+    return spec
 
 
 @st.composite
@@ -150,13 +174,20 @@ def check(spec) -> Outcome:
     from dissect.hypervisor.disk.vmdk import VMDK
 
     exts = spec["extents"]
+    if spec.get("share") == "dup-in-list":
+        exts = exts + [exts[spec["dup"]]]
     total = sum(e["spec"]["capacity"] for e in exts) * 512
     lay = Extents(total)
     built = []
     pos = 0
     bounds = []
-    for e in exts:
-        fh, elay, meta = bvmdk.build(e["spec"])
+    for j, e in enumerate(exts):
+        if spec.get("share") == "dup-in-list" and j == len(exts) - 1:
+            fh, elay = built[spec["dup"]], dup_lay  # the very same handle once more
+        else:
+            fh, elay, meta = bvmdk.build(e["spec"])
+            if j == spec.get("dup"):
+                dup_lay = elay
         copy_shifted(elay, lay, pos, limit=e["spec"]["capacity"] * 512)
         built.append(fh)
         pos += e["spec"]["capacity"] * 512
@@ -199,6 +230,36 @@ def check(spec) -> Outcome:
         if err:
             out.fail(err.sig("vmdk-list-open"), f"VMDK([...]) raised {err.describe()}")
             return out
+        if spec.get("share"):
+            out.cls("shared-handles-" + spec["share"])
+            other = v
+            if spec["share"] == "two-readers":
+                for fh in built:
+                    fh.seek(0)  # extents are recognised at the position a handle is handed over at
+                other, err = lib(VMDK, built)
+                if err:
+                    out.fail(err.sig("vmdk-list-open-second"), f"second VMDK([...]) over the same handles raised {err.describe()}")
+                    return out
+            # requests that alternate between the two users of a handle, each continuing where its last one ended
+            nsec = total // 512
+            acc = 0
+            for j, e in enumerate(exts):
+                cap = e["spec"]["capacity"]
+                far = (bounds[-2] // 512 if spec["share"] == "dup-in-list" else (acc + cap // 2) % nsec) if nsec > 1 else 0
+                if spec["share"] == "two-readers" or j == spec.get("dup"):
+                    k = max(1, min(2, cap // 2))
+                    for rd, s0, c0 in ((v, acc, k), (other, min(far + 1, nsec - 1), 1), (v, acc + k, max(1, min(k, cap - k)))):
+                        c0 = min(c0, nsec - s0)
+                        if c0 <= 0:
+                            continue
+                        got, err = lib(rd.read_sectors, s0, c0)
+                        if err:
+                            out.fail(err.sig("vmdk-list-shared"), f"read_sectors({s0},{c0}) raised {err.describe()}")
+                        elif got != lay.read_at(s0 * 512, c0 * 512):
+                            out.fail("mismatch|vmdk-list-shared", f"read_sectors({s0},{c0}) differs from the model when two users of a handle alternate")
+                acc += cap
+            if out.failures:
+                return out
         _vmdk_oracle(out, v, spec, lay, total, exts, "vmdk-list")
         return out
 
@@ -287,6 +348,7 @@ def check_hdd(spec, out):
     sts = spec["storages"]
     total = sum(s["size_sectors"] for s in sts) * 512
     lay = Extents(total)
+    top_lay = Extents(total)
     d = scratch_dir()
     try:
         root = os.path.join(d, "x.hdd")
@@ -308,14 +370,29 @@ def check_hdd(spec, out):
                 hs = dict(s["hds"], size_sectors=s["size_sectors"])
                 fh, play, _ = bhdd.build(hs)
                 copy_shifted(play, lay, start * 512, limit=nbytes)
-            fname = f"x.hdd.{i}.{{{bhdd.DEFAULT_TOP}}}.hds"
+            base_guid = BASE_GUID if spec.get("snapshot") else bhdd.DEFAULT_TOP
+            fname = f"x.hdd.{i}.{{{base_guid}}}.hds"
             fh.write_to(os.path.join(root, fname))
-            desc_storages.append({"start": start, "end": start + s["size_sectors"],
-                                  "images": [{"guid": bhdd.DEFAULT_TOP, "type": s["type"], "file": fname}]})
+            images = [{"guid": base_guid, "type": s["type"], "file": fname}]
+            if spec.get("snapshot"):
+                dfh, dlay, _ = bhdd.build(dict(s["delta"], size_sectors=s["size_sectors"]))
+                dname = f"x.hdd.{i}.{{{bhdd.DEFAULT_TOP}}}.hds"
+                dfh.write_to(os.path.join(root, dname))
+                copy_shifted(dlay, top_lay, start * 512, limit=nbytes)
+                images.append({"guid": bhdd.DEFAULT_TOP, "type": "Compressed", "file": dname})
+                if s["delta_first"]:
+                    images.reverse()
+            desc_storages.append({"start": start, "end": start + s["size_sectors"], "images": images})
             start += s["size_sectors"]
             bounds.append(start * 512)
         desc = {"disk_size": total // 512, "storages": desc_storages, "shots": [{"guid": bhdd.DEFAULT_TOP, "parent": bhdd.NULL_GUID}],
                 "shuffle": spec["order"]}
+        if spec.get("snapshot"):
+            desc["shots"] = [{"guid": BASE_GUID, "parent": bhdd.NULL_GUID}, {"guid": bhdd.DEFAULT_TOP, "parent": BASE_GUID}]
+            out.cls("hdd-storages-with-snapshot")
+            from hv.sparse import Overlay
+
+            lay = Overlay([top_lay, lay], total)
         with open(os.path.join(root, "DiskDescriptor.xml"), "w") as f:
             f.write(bhdd.descriptor_xml(desc))
         kinds = {s["type"] for s in sts}
